@@ -584,3 +584,54 @@ DEF_ATOMICS(32, unsigned int)
 DEF_ATOMICS(64, unsigned long)
 void __tsan_atomic_thread_fence(int mo) { (void)mo; }
 void __tsan_atomic_signal_fence(int mo) { (void)mo; }
+
+/* ------------------------------------------------------------------ pthread mutexes used by the code under test
+ * (json-c has none today; a lock-based implementation of the reference count would be just as valid, so the simulator must
+ * not dead-lock on one: a thread that finds the mutex taken hands the token to somebody else instead of blocking for real) */
+#include <errno.h>
+int __real_pthread_mutex_lock(pthread_mutex_t *m);
+int __real_pthread_mutex_unlock(pthread_mutex_t *m);
+int __real_pthread_mutex_trylock(pthread_mutex_t *m);
+static int force_switch(void)
+{
+	int me = t_tid, runnable[SIMTHR_MAX], n = 0;
+	for (int i = 1; i <= g_nthreads; i++)
+		if (g_state[i] == 1 && i != me)
+			runnable[n++] = i;
+	if (!n)
+		return 0;
+	g_stats.yields++;
+	g_step++;
+	g_seq++;
+	return switch_to(runnable[rnd() % (uint64_t)n]);
+}
+int __wrap_pthread_mutex_lock(pthread_mutex_t *m)
+{
+	if (!g_active || t_tid <= 0)
+		return __real_pthread_mutex_lock(m);
+	yield_point(g_cfg.switch_permille_atomic);
+	int spins = 0;
+	while (__real_pthread_mutex_trylock(m) == EBUSY)
+	{
+		if (!force_switch() && ++spins > 1000000)
+			return __real_pthread_mutex_lock(m); /* nobody else can run: genuine dead-lock, let the watchdog report it */
+	}
+	atomic_sync((uintptr_t)m, 2 /* acquire */, 0, 0);
+	return 0;
+}
+int __wrap_pthread_mutex_trylock(pthread_mutex_t *m)
+{
+	int r = __real_pthread_mutex_trylock(m);
+	if (r == 0 && g_active && t_tid >= 0)
+		atomic_sync((uintptr_t)m, 2, 0, 0);
+	return r;
+}
+int __wrap_pthread_mutex_unlock(pthread_mutex_t *m)
+{
+	if (g_active && t_tid >= 0)
+		atomic_sync((uintptr_t)m, 3 /* release */, 0, 0);
+	int r = __real_pthread_mutex_unlock(m);
+	if (g_active && t_tid > 0)
+		yield_point(g_cfg.switch_permille_atomic);
+	return r;
+}
